@@ -5,6 +5,9 @@ import CkptVerif.Proofs.HRevolveCost
 import CkptVerif.Proofs.RevolveOptimal
 import CkptVerif.Proofs.DiskCounterexamples
 import CkptVerif.Proofs.HRevolveNoDisk
+import CkptVerif.Proofs.DiskOneReadLB
+import CkptVerif.Proofs.HRevolveLB
+import CkptVerif.Proofs.HRevolveLBLifo
 /-!
 # C07 — the H-Revolve family achieves its cost optimum for any (integer) cost vector
 
@@ -22,8 +25,17 @@ import CkptVerif.Proofs.HRevolveNoDisk
   kernel-checked counterexamples — OUTSIDE `OneRead` (reading a disk checkpoint twice; copying a RAM
   checkpoint to disk) the executor accepts cheaper streams, so "optimum" for the two-level classes can only
   mean the optimum of the restricted problem the tables solve, as the property text says for DiskRevolve.
-Stated, not proved (`LB7.DiskOneReadOptimal`, `LB7.HRevolveOptimalT`; supported by exhaustive search for
-small `N`): the tables are lower bounds inside those classes.
+* `C07_diskRevolve_optimal` (`LB7.diskOneReadOptimal`): **in the class `OneRead` the Disk-Revolve table IS a lower
+  bound** for every accepted complete stream (any `N`, `cm ≥ 1`, any cost vector) — with
+  `C07_diskRevolve_oneRead`: DiskRevolve attains the optimum of the problem "each disk checkpoint read once";
+* `C07_hrevolve_lowerBound_partial` (`LB7.hrevolveOptimalT_partial`): the H-Revolve table is a lower bound for the
+  transfer-aware cost of every accepted stream that loads checkpoints in LIFO order (`Lifo`: every `Copy`/`Move`
+  into WORK takes the most recently stored checkpoint still present; RAM and DISK checkpoints may interleave, be
+  read any number of times, be dropped early); `C07_hrevolve_optimal_lifo`: the HRevolve stream is accepted, LIFO,
+  costs exactly the table value, and no accepted LIFO stream is cheaper; `C07_hrevolve_of_lifo` states what is
+  missing for the full `LB7.HRevolveOptimalT` (kept visible, NOT proved: streams that restart from an older
+  checkpoint while a newer one is stored; an exact search over a superset of the executor's moves finds the table
+  value as the minimum for all (c0, c1) with c0 + c1 ≤ 5 and N ≤ 11-13, 12 cost vectors).
 -/
 namespace Ckpt
 
@@ -59,4 +71,17 @@ alias C07_optInf_not_lowerBound := LB7.optInf_not_lowerBound
 alias C07_hopt_not_lowerBound_plain := LB7.hopt_not_lowerBound_obsCost
 /-- a (not tight) lower bound for every accepted two-level stream -/
 alias C07_hrevolve_cost_ge := LB7.hrevolve_cost_ge
+end Ckpt
+
+namespace Ckpt
+/-- **DiskRevolve is optimal in its class**: `optInf[N-1] + N·uf` is a lower bound for every accepted complete
+stream in which each disk checkpoint is written by a `Forward` and read once, by the `Move` that removes it -/
+alias C07_diskRevolve_optimal := LB7.diskOneReadOptimal
+/-- the H-Revolve table is a lower bound over all accepted LIFO streams (the full statement is `LB7.HRevolveOptimalT`) -/
+alias C07_hrevolve_lowerBound_partial := LB7.hrevolveOptimalT_partial
+/-- HRevolve: accepted, LIFO, cost = table value, and optimal among accepted LIFO streams -/
+alias C07_hrevolve_optimal_lifo := LB7.C07_hrevolve_optimal_in_lifo
+alias C07_hrevolve_lifo_attains := LB7.hrevolve_lifo_attains
+/-- what is missing: if every accepted stream were LIFO (or could be made LIFO at no cost) the full statement follows -/
+alias C07_hrevolve_of_lifo := LB7.hrevolveOptimalT_of_lifo
 end Ckpt
